@@ -1,6 +1,613 @@
 import OnetVerif.Model.C03
-/-! Property C03 — property theorems, negation witnesses, `_partial` variants and non-vacuity
-examples only (helper lemmas that need Mathlib go to OnetVerif/Proofs/). -/
+/-! Property C03 — wire integrity: values, framing and order survive any segmentation.
+Property theorems (`c03_…`), the lemmas they need, and non-vacuity examples. -/
 namespace C03
+
+/-! ### header arithmetic -/
+
+/-- **the length header round-trips** for every length a `uint32` can hold -/
+theorem c03_be32_roundtrip (n : Nat) (h : n < 2^32) : unbe32 (be32 n) = n := by
+  simp only [be32, unbe32]; omega
+
+theorem be32_length (n : Nat) : (be32 n).length = 4 := by simp [be32]
+
+theorem encFrame_length (b : List Nat) : (encFrame b).length = 4 + b.length := by
+  simp [encFrame, be32_length]
+
+/-! ### one `Read`, and the read-until-full loop, against the concatenation of the segments -/
+
+theorem read_spec (c : Segs) (n : Nat) (hn : 1 ≤ n) :
+    (c.flatten = [] → read c n = none) ∧
+    (c.flatten ≠ [] → ∃ bs c', read c n = some (bs, c') ∧ 1 ≤ bs.length ∧ bs.length ≤ n ∧
+        bs ++ c'.flatten = c.flatten) := by
+  induction c with
+  | nil => simp [read]
+  | cons s rest ih =>
+    by_cases hs : s = []
+    · subst hs
+      simpa [read] using ih
+    · have hpos : 1 ≤ s.length := by
+        cases s with
+        | nil => exact absurd rfl hs
+        | cons a t => simp
+      have hemp : s.isEmpty = false := by simpa using hs
+      constructor
+      · intro h; simp [hs] at h
+      · intro _
+        by_cases hle : s.length ≤ n
+        · exact ⟨s, rest, by simp [read, hemp, hle], hpos, hle, by simp⟩
+        · refine ⟨s.take n, s.drop n :: rest, by simp [read, hemp, hle], ?_, ?_, ?_⟩
+          · simp; omega
+          · simp; omega
+          · simp [← List.append_assoc]
+
+theorem readExact_zero (fuel : Nat) (c : Segs) (acc : List Nat) :
+    readExact fuel c 0 acc = (some acc, c) := by
+  cases fuel <;> rfl
+
+/-- the loop returns exactly the first `n` bytes in flight and leaves the rest, whatever the
+segmentation; it reports EOF iff fewer than `n` bytes were in flight. -/
+theorem readExact_spec (fuel : Nat) (c : Segs) (n : Nat) (acc : List Nat) (hf : n ≤ fuel) :
+    (n ≤ c.flatten.length → ∃ c', readExact fuel c n acc = (some (acc ++ c.flatten.take n), c') ∧
+        c'.flatten = c.flatten.drop n) ∧
+    (c.flatten.length < n → (readExact fuel c n acc).1 = none) := by
+  induction fuel generalizing c n acc with
+  | zero =>
+    have : n = 0 := by omega
+    subst this
+    exact ⟨fun _ => ⟨c, by simp [readExact_zero]⟩, fun h => by omega⟩
+  | succ fuel ih =>
+    cases n with
+    | zero => exact ⟨fun _ => ⟨c, by simp [readExact_zero]⟩, fun h => by omega⟩
+    | succ n =>
+      have hr := read_spec c (n + 1) (by omega)
+      by_cases he : c.flatten = []
+      · have h0 := hr.1 he
+        constructor
+        · intro h; simp [he] at h
+        · intro _; simp [readExact, h0]
+      · obtain ⟨bs, c', hread, h1, h2, h3⟩ := hr.2 he
+        have hlen : c.flatten.length = bs.length + c'.flatten.length := by
+          rw [← h3]; simp
+        have hstep : readExact (fuel + 1) c (n + 1) acc =
+            readExact fuel c' (n + 1 - bs.length) (acc ++ bs) := by
+          simp [readExact, hread]
+        have ih' := ih c' (n + 1 - bs.length) (acc ++ bs) (by omega)
+        rw [hstep]
+        constructor
+        · intro h
+          obtain ⟨c'', e1, e2⟩ := ih'.1 (by omega)
+          refine ⟨c'', ?_, ?_⟩
+          · rw [e1, ← h3, List.take_append]
+            have : List.take (n + 1) bs = bs := List.take_of_length_le (by omega)
+            simp [this, List.append_assoc]
+          · rw [e2, ← h3, List.drop_append]
+            have : List.drop (n + 1) bs = [] := List.drop_of_length_le (by omega)
+            simp [this]
+        · intro h
+          exact ih'.2 (by omega)
+
+theorem readExact_nil (c : Segs) (n : Nat) :
+    (n ≤ c.flatten.length → ∃ c', readExact n c n [] = (some (c.flatten.take n), c') ∧
+        c'.flatten = c.flatten.drop n) ∧
+    (c.flatten.length < n → ∃ c', readExact n c n [] = (none, c')) := by
+  have h := readExact_spec n c n [] (Nat.le_refl n)
+  constructor
+  · intro hl
+    obtain ⟨c', e, f⟩ := h.1 hl
+    exact ⟨c', by simpa using e, f⟩
+  · intro hl
+    have := h.2 hl
+    exact ⟨(readExact n c n []).2, by rw [← this]⟩
+
+/-- `receiveRawProd` as a function of the bytes in flight alone: the answer, and the bytes left
+when the loop may go on -/
+def frameSpec (max : Nat) (bs : List Nat) : Except RecvErr (List Nat) × List Nat :=
+  if bs.length < 4 then (.error .eof, [])
+  else if unbe32 (bs.take 4) > max then (.error .tooBig, bs.drop 4)
+  else if (bs.drop 4).length < unbe32 (bs.take 4) then (.error .eof, [])
+  else (.ok ((bs.drop 4).take (unbe32 (bs.take 4))), (bs.drop 4).drop (unbe32 (bs.take 4)))
+
+/-- `recvFrame` under any segmentation computes `frameSpec` of the concatenation -/
+theorem recvFrame_spec (max : Nat) (c : Segs) :
+    (recvFrame max c).1 = (frameSpec max c.flatten).1 ∧
+    (∀ b, (recvFrame max c).1 = .ok b → (recvFrame max c).2.flatten = (frameSpec max c.flatten).2) := by
+  have s1 := readExact_nil c 4
+  unfold frameSpec
+  by_cases hl : c.flatten.length < 4
+  · obtain ⟨c1, e1⟩ := s1.2 hl
+    rw [if_pos hl]
+    simp only [recvFrame, e1]
+    simp
+  · obtain ⟨c1, e1, f1⟩ := s1.1 (by omega)
+    rw [if_neg hl]
+    by_cases hbig : unbe32 (c.flatten.take 4) > max
+    · rw [if_pos hbig]
+      simp only [recvFrame, e1, if_pos hbig]
+      simp
+    · rw [if_neg hbig]
+      have s2 := readExact_nil c1 (unbe32 (c.flatten.take 4))
+      by_cases hl2 : c1.flatten.length < unbe32 (c.flatten.take 4)
+      · obtain ⟨c2, e2⟩ := s2.2 hl2
+        have hl2' : (c.flatten.drop 4).length < unbe32 (c.flatten.take 4) := by rw [← f1]; exact hl2
+        rw [if_pos hl2']
+        simp only [recvFrame, e1, if_neg hbig, e2]
+        simp
+      · obtain ⟨c2, e2, f2⟩ := s2.1 (by omega)
+        have hl2' : ¬ (c.flatten.drop 4).length < unbe32 (c.flatten.take 4) := by rw [← f1]; exact hl2
+        rw [if_neg hl2']
+        simp only [recvFrame, e1, if_neg hbig, e2]
+        exact ⟨by rw [f1], fun b _ => by rw [f2, f1]⟩
+
+theorem recvFrame_pair (max : Nat) (c : Segs) : ∃ r c', recvFrame max c = (r, c') := ⟨_, _, rfl⟩
+
+/-- frame-level errors are EOF or too-big, nothing else -/
+theorem recvFrame_err (max : Nat) (c : Segs) (e : RecvErr) (h : (recvFrame max c).1 = .error e) :
+    e = .eof ∨ e = .tooBig := by
+  rw [(recvFrame_spec max c).1] at h
+  unfold frameSpec at h
+  split at h
+  · left; simpa using h.symm
+  · split at h
+    · right; simpa using h.symm
+    · split at h
+      · left; simpa using h.symm
+      · simp at h
+
+/-- a complete frame at the head of the stream is received intact and exactly consumed -/
+theorem recvFrame_enc (max : Nat) (b tail : List Nat) (c : Segs)
+    (hb : b.length ≤ max) (h32 : b.length < 2^32) (hc : c.flatten = encFrame b ++ tail) :
+    ∃ c', recvFrame max c = (.ok b, c') ∧ c'.flatten = tail := by
+  have t4 : (encFrame b ++ tail).take 4 = be32 b.length := by simp [encFrame, be32]
+  have d4 : (encFrame b ++ tail).drop 4 = b ++ tail := by simp [encFrame, be32]
+  have hs : frameSpec max (encFrame b ++ tail) = (.ok b, tail) := by
+    unfold frameSpec
+    rw [if_neg (by rw [List.length_append, encFrame_length]; omega), t4, d4, c03_be32_roundtrip _ h32, if_neg (by omega),
+      if_neg (by simp)]
+    simp
+  obtain ⟨r, c', hr⟩ := recvFrame_pair max c
+  have sp := recvFrame_spec max c
+  rw [hr, hc, hs] at sp
+  simp only at sp
+  refine ⟨c', by rw [hr, sp.1], sp.2 b sp.1⟩
+
+/-- fewer than four bytes in flight: EOF while reading the header -/
+theorem recvFrame_short_header (max : Nat) (c : Segs) (h : c.flatten.length < 4) :
+    (recvFrame max c).1 = .error .eof := by
+  rw [(recvFrame_spec max c).1]; unfold frameSpec; rw [if_pos h]
+
+/-- a header above the limit: refused before a single body byte is read -/
+theorem recvFrame_oversize (max n : Nat) (junk : List Nat) (c : Segs)
+    (hn : max < n) (h32 : n < 2^32) (hc : c.flatten = be32 n ++ junk) :
+    (recvFrame max c).1 = .error .tooBig := by
+  have t4 : (be32 n ++ junk).take 4 = be32 n := by simp [be32]
+  rw [(recvFrame_spec max c).1, hc]
+  unfold frameSpec
+  rw [if_neg (by simp [be32_length]), t4, c03_be32_roundtrip _ h32, if_pos (by omega)]
+
+/-- a frame cut anywhere (in the header or in the body): EOF, nothing is delivered from it -/
+theorem recvFrame_truncated (max : Nat) (b : List Nat) (k : Nat) (c : Segs)
+    (hb : b.length ≤ max) (h32 : b.length < 2^32) (hk : k < (encFrame b).length)
+    (hc : c.flatten = (encFrame b).take k) :
+    (recvFrame max c).1 = .error .eof := by
+  have hk' : k < 4 + b.length := by rw [encFrame_length] at hk; exact hk
+  have hlen : ((encFrame b).take k).length = k := by simp [encFrame_length]; omega
+  by_cases h4 : k < 4
+  · exact recvFrame_short_header max c (by rw [hc, hlen]; exact h4)
+  · have t4 : ((encFrame b).take k).take 4 = be32 b.length := by
+      rw [List.take_take, Nat.min_eq_left (by omega)]; simp [encFrame, be32]
+    rw [(recvFrame_spec max c).1, hc]
+    unfold frameSpec
+    rw [if_neg (by rw [hlen]; exact h4), t4, c03_be32_roundtrip _ h32, if_neg (by omega),
+      if_pos (by simp [hlen]; omega)]
+
+/-- whatever `recvFrame` accepts was preceded by its 4-byte header: progress of the loop -/
+theorem recvFrame_progress (max : Nat) (c c' : Segs) (b : List Nat)
+    (h : recvFrame max c = (.ok b, c')) : inflight c' + 4 ≤ inflight c := by
+  have sp := recvFrame_spec max c
+  rw [h] at sp
+  have h2 := sp.2 b rfl
+  have h1 := sp.1
+  simp only at h1 h2
+  unfold frameSpec at h1 h2
+  split at h1
+  · simp at h1
+  · split at h1
+    · simp at h1
+    · split at h1
+      · simp at h1
+      · rename_i g1 g2 g3
+        rw [if_neg g1, if_neg g2, if_neg g3] at h2
+        simp only [inflight, h2, List.length_drop]
+        omega
+
+/-! ### all segmentations: only the concatenation matters -/
+
+/-- two segmentations of the same bytes give `recvFrame` the same answer and, when the loop can go
+on, the same bytes left -/
+theorem recvFrame_segmentation (max : Nat) (c d : Segs) (h : c.flatten = d.flatten) :
+    (recvFrame max c).1 = (recvFrame max d).1 ∧
+    (∀ b, (recvFrame max c).1 = .ok b → (recvFrame max c).2.flatten = (recvFrame max d).2.flatten) := by
+  have sc := recvFrame_spec max c
+  have sd := recvFrame_spec max d
+  refine ⟨by rw [sc.1, sd.1, h], fun b hb => ?_⟩
+  rw [sc.2 b hb, sd.2 b (by rw [sd.1, ← h, ← sc.1]; exact hb), h]
+
+theorem classify_not_closed {V : Type} (cd : Codec V) (b : List Nat) :
+    (classify cd b).isClosed = false := by
+  unfold classify unmarshal
+  split
+  · rfl
+  · split
+    · split <;> rfl
+    · rfl
+
+/-- one turn of the loop when `receiveRaw` failed -/
+theorem recvLoop_err {V : Type} (cd : Codec V) (max fuel : Nat) (c c' : Segs) (e : RecvErr)
+    (h : recvFrame max c = (.error e, c')) :
+    recvLoop cd max (fuel + 1) c = [.closed e] := by
+  have he := recvFrame_err max c e (by rw [h])
+  rcases he with rfl | rfl <;> simp [recvLoop, receive, h, react, sentinelOf, fatal, Event.isClosed]
+
+/-- one turn of the loop when a frame came in -/
+theorem recvLoop_ok {V : Type} (cd : Codec V) (max fuel : Nat) (c c' : Segs) (b : List Nat)
+    (h : recvFrame max c = (.ok b, c')) :
+    recvLoop cd max (fuel + 1) c = classify cd b :: recvLoop cd max fuel c' := by
+  have hnc := classify_not_closed cd b
+  simp only [classify] at hnc
+  simp [recvLoop, receive, h, hnc, classify]
+
+/-- **segmentation is irrelevant**: the whole behaviour of the receive loop — what is delivered,
+what is refused, in which order, how the connection ends — is a function of the bytes sent, not of
+how the transport cut them. Holds for every stream, well-formed or not. -/
+theorem c03_segmentation_irrelevant {V : Type} (cd : Codec V) (max fuel : Nat) (c d : Segs)
+    (h : c.flatten = d.flatten) : recvLoop cd max fuel c = recvLoop cd max fuel d := by
+  induction fuel generalizing c d with
+  | zero => rfl
+  | succ fuel ih =>
+    have hs := recvFrame_segmentation max c d h
+    obtain ⟨rc, c', hc⟩ := recvFrame_pair max c
+    obtain ⟨rd, d', hd⟩ := recvFrame_pair max d
+    rw [hc, hd] at hs
+    have h1 : rc = rd := hs.1
+    subst h1
+    cases rc with
+    | error e => rw [recvLoop_err cd max fuel c c' e hc, recvLoop_err cd max fuel d d' e hd]
+    | ok b =>
+      rw [recvLoop_ok cd max fuel c c' b hc, recvLoop_ok cd max fuel d d' b hd,
+        ih c' d' (hs.2 b rfl)]
+
+/-! ### the loop on a stream of well-formed frames followed by something that ends it -/
+
+/-- `tail` makes the next `receiveRaw` fail with `e`, however it is segmented -/
+def EndsWith (max : Nat) (tail : List Nat) (e : RecvErr) : Prop :=
+  ∀ c : Segs, c.flatten = tail → (recvFrame max c).1 = .error e
+
+theorem endsWith_nil (max : Nat) : EndsWith max [] .eof :=
+  fun c hc => recvFrame_short_header max c (by rw [hc]; simp)
+
+theorem endsWith_oversize (max n : Nat) (junk : List Nat) (hn : max < n) (h32 : n < 2^32) :
+    EndsWith max (be32 n ++ junk) .tooBig :=
+  fun c hc => recvFrame_oversize max n junk c hn h32 hc
+
+theorem endsWith_truncated (max : Nat) (b : List Nat) (k : Nat) (hb : b.length ≤ max)
+    (h32 : b.length < 2^32) (hk : k < (encFrame b).length) :
+    EndsWith max ((encFrame b).take k) .eof :=
+  fun c hc => recvFrame_truncated max b k c hb h32 hk hc
+
+theorem wire_cons (b : List Nat) (l : List (List Nat)) : wire (b :: l) = encFrame b ++ wire l := by
+  simp [wire]
+
+theorem wire_append (l₁ l₂ : List (List Nat)) : wire (l₁ ++ l₂) = wire l₁ ++ wire l₂ := by
+  simp [wire]
+
+/-- the receive loop on `frames` (each within the limit) followed by a tail that ends the
+connection with `e`: every frame is classified on its own, in order, then the connection closes. -/
+theorem recvLoop_frames {V : Type} (cd : Codec V) (max : Nat) (hmax : max < 2^32)
+    (frames : List (List Nat)) (tail : List Nat) (e : RecvErr)
+    (hf : ∀ f ∈ frames, f.length ≤ max) (ht : EndsWith max tail e)
+    (hfatal : fatal (sentinelOf e) = true)
+    (fuel : Nat) (hfuel : frames.length + 1 ≤ fuel) (c : Segs)
+    (hc : c.flatten = wire frames ++ tail) :
+    recvLoop cd max fuel c = frames.map (classify cd) ++ [.closed e] := by
+  induction frames generalizing c fuel with
+  | nil =>
+    cases fuel with
+    | zero => omega
+    | succ fuel =>
+      have h1 := ht c (by simpa [wire] using hc)
+      obtain ⟨r, c', hr⟩ := recvFrame_pair max c
+      rw [hr] at h1
+      simp only at h1
+      subst h1
+      rw [recvLoop_err cd max fuel c c' e hr]
+      rfl
+  | cons b rest ih =>
+    cases fuel with
+    | zero => omega
+    | succ fuel =>
+      have hb : b.length ≤ max := hf b (by simp)
+      obtain ⟨c', e1, f1⟩ := recvFrame_enc max b (wire rest ++ tail) c hb (by omega)
+        (by rw [hc, wire_cons, List.append_assoc])
+      rw [recvLoop_ok cd max fuel c c' b e1,
+        ih (fun f h => hf f (by simp [h])) fuel (by simp at hfuel; omega) c' f1]
+      rfl
+
+theorem wire_length_ge (frames : List (List Nat)) : 4 * frames.length ≤ (wire frames).length := by
+  induction frames with
+  | nil => simp [wire]
+  | cons b l ih => rw [wire_cons]; simp [encFrame_length]; omega
+
+/-- the default fuel of `recvAll` is enough for any number of frames -/
+theorem recvAll_frames {V : Type} (cd : Codec V) (max : Nat) (hmax : max < 2^32)
+    (frames : List (List Nat)) (tail : List Nat) (e : RecvErr)
+    (hf : ∀ f ∈ frames, f.length ≤ max) (ht : EndsWith max tail e)
+    (hfatal : fatal (sentinelOf e) = true) (c : Segs)
+    (hc : c.flatten = wire frames ++ tail) :
+    recvAll cd max c = frames.map (classify cd) ++ [.closed e] := by
+  have := wire_length_ge frames
+  exact recvLoop_frames cd max hmax frames tail e hf ht hfatal _
+    (by simp only [inflight, hc, List.length_append]; omega) c hc
+
+/-! ### the property theorems -/
+
+/-- **framing round trip under every segmentation**: for every limit, every list of frames within
+the limit and every way the transport may cut the byte stream, `receiveRaw` yields exactly those
+frames, in order, then EOF. -/
+theorem c03_frame_roundtrip (max : Nat) (hmax : max < 2^32) (frames : List (List Nat))
+    (hf : ∀ f ∈ frames, f.length ≤ max) (c : Segs) (hc : c.flatten = wire frames)
+    (fuel : Nat) (hfuel : frames.length + 1 ≤ fuel) :
+    recvFrames max fuel c = (frames, some .eof) := by
+  induction frames generalizing c fuel with
+  | nil =>
+    cases fuel with
+    | zero => omega
+    | succ fuel =>
+      have h1 := recvFrame_short_header max c (by rw [hc]; simp [wire])
+      simp only [recvFrames]
+      cases hr : recvFrame max c with
+      | mk r c' => rw [hr] at h1; simp only at h1; subst h1; rfl
+  | cons b rest ih =>
+    cases fuel with
+    | zero => omega
+    | succ fuel =>
+      obtain ⟨c', e1, f1⟩ := recvFrame_enc max b (wire rest) c (hf b (by simp))
+        (by have := hf b (by simp); omega) (by rw [hc, wire_cons])
+      simp only [recvFrames, e1]
+      rw [ih (fun f h => hf f (by simp [h])) c' f1 fuel (by simp at hfuel; omega)]
+
+/-- **envelope round trip** under the codec hypothesis: what `Marshal` produces, `Unmarshal` turns
+back into the same value (same type, since the type id is part of the buffer). -/
+theorem c03_marshal_roundtrip {V : Type} (cd : Codec V) (hcd : cd.Sound) (v : V) (b : List Nat)
+    (h : marshal cd v = some b) : unmarshal cd b = .ok v := by
+  unfold marshal at h
+  by_cases hs : cd.sendable v = true
+  · simp [hs] at h
+    subst h
+    have hl := hcd.ty_len v hs
+    have t16 : (cd.tyOf v ++ cd.enc v).take 16 = cd.tyOf v := by
+      rw [List.take_append_of_le_length (by omega)]; exact List.take_of_length_le (by omega)
+    have d16 : (cd.tyOf v ++ cd.enc v).drop 16 = cd.enc v := by
+      rw [List.drop_append_of_le_length (by omega)]
+      simp [List.drop_of_length_le (show (cd.tyOf v).length ≤ 16 by omega)]
+    unfold unmarshal
+    rw [if_neg (by simp; omega), t16, d16, hcd.ty_reg v hs, hcd.roundtrip v hs]
+    simp
+  · simp [hs] at h
+
+/-- what `Send` writes for a value -/
+def bufOf {V : Type} (cd : Codec V) (v : V) : List Nat := cd.tyOf v ++ cd.enc v
+
+theorem marshal_bufOf {V : Type} (cd : Codec V) (v : V) (hs : cd.sendable v = true) :
+    marshal cd v = some (bufOf cd v) := by simp [marshal, hs, bufOf]
+
+/-- **values arrive equal, in order, without loss or duplication (TCP)**: for every sequence of
+sendable values whose buffers respect the receiver's limit and every segmentation of what the
+sender wrote, the receiving router dispatches exactly those values in sending order, then sees the
+peer's close. -/
+theorem c03_value_delivery {V : Type} (cd : Codec V) (hcd : cd.Sound) (max : Nat) (hmax : max < 2^32)
+    (vs : List V) (hv : ∀ v ∈ vs, cd.sendable v = true ∧ (bufOf cd v).length ≤ max)
+    (c : Segs) (hc : c.flatten = wire (vs.map (bufOf cd))) :
+    recvAll cd max c = vs.map .deliver ++ [.closed .eof] := by
+  rw [recvAll_frames cd max hmax (vs.map (bufOf cd)) [] .eof
+    (by intro f hf'; obtain ⟨v, hv', rfl⟩ := List.mem_map.mp hf'; exact (hv v hv').2)
+    (endsWith_nil max) rfl c (by simpa using hc)]
+  congr 1
+  rw [List.map_map]
+  apply List.map_congr_left
+  intro v hv'
+  simp only [Function.comp, classify]
+  rw [c03_marshal_roundtrip cd hcd v (bufOf cd v) (marshal_bufOf cd v (hv v hv').1)]
+  rfl
+
+/-- **the same on the in-memory transport** (whole buffers, no limit) -/
+theorem c03_value_delivery_local {V : Type} (cd : Codec V) (hcd : cd.Sound)
+    (vs : List V) (hv : ∀ v ∈ vs, cd.sendable v = true) :
+    localLoop cd (vs.map (bufOf cd)) = vs.map .deliver ++ [.closed .closed] := by
+  unfold localLoop
+  congr 1
+  rw [List.map_map]
+  apply List.map_congr_left
+  intro v hv'
+  simp only [Function.comp, classify]
+  rw [c03_marshal_roundtrip cd hcd v (bufOf cd v) (marshal_bufOf cd v (hv v hv'))]
+  rfl
+
+/-- the in-memory queues under every schedule of senders, the forwarding goroutine and the
+receiver: received ++ still queued = sent, always (FIFO, nothing lost, nothing duplicated). -/
+theorem c03_local_fifo (cap : Nat) (s : LQ) (sched : List LAct) :
+    (lrun cap s sched).1.got ++ (lrun cap s sched).1.out ++ (lrun cap s sched).1.inc
+      = s.got ++ s.out ++ s.inc ++ (lrun cap s sched).2 := by
+  induction sched generalizing s with
+  | nil => simp [lrun]
+  | cons a l ih =>
+    simp only [lrun]
+    cases hst : lstep cap s a with
+    | none => simpa using ih s
+    | some s' =>
+      simp only []
+      rw [ih s']
+      cases a with
+      | send b =>
+        simp only [lstep] at hst
+        split at hst
+        · cases hst; simp
+        · simp at hst
+      | move =>
+        simp only [lstep] at hst
+        split at hst
+        · simp at hst
+        · rename_i b rest heq
+          split at hst
+          · cases hst; simp [heq]
+          · simp at hst
+      | recv =>
+        simp only [lstep] at hst
+        split at hst
+        · simp at hst
+        · rename_i b rest heq
+          cases hst; simp [heq]
+
+/-- **garbage is total**: `Unmarshal` answers every byte string with a value or an error… -/
+theorem c03_garbage_unmarshal {V : Type} (cd : Codec V) (buf : List Nat) :
+    (∃ v, unmarshal cd buf = .ok v) ∨
+    (∃ e, unmarshal cd buf = .error e ∧ (e = .short ∨ e = .unknownType ∨ e = .decode) ∧
+      fatal (sentinelOf e) = false) := by
+  unfold unmarshal
+  split
+  · exact .inr ⟨_, rfl, by simp, rfl⟩
+  · split
+    · split
+      · exact .inl ⟨_, rfl⟩
+      · exact .inr ⟨_, rfl, by simp, rfl⟩
+    · exact .inr ⟨_, rfl, by simp, rfl⟩
+
+/-- … **and so is the receive loop**: on *every* byte stream under *every* segmentation the loop
+terminates (the default fuel is never exhausted) with exactly one close — by EOF or by the
+too-big rule — after finitely many deliveries/refusals; there is no other outcome (no crash state
+exists in the model: every error of `Receive` is classified by `react`). -/
+theorem c03_garbage_total {V : Type} (cd : Codec V) (max : Nat) (c : Segs) :
+    ∃ evs e, recvAll cd max c = evs ++ [.closed e] ∧ (e = .eof ∨ e = .tooBig) ∧
+      ∀ x ∈ evs, x.isClosed = false := by
+  unfold recvAll
+  suffices H : ∀ fuel c, inflight c < fuel →
+      ∃ evs e, recvLoop cd max fuel c = evs ++ [.closed e] ∧ (e = .eof ∨ e = .tooBig) ∧
+        ∀ x ∈ evs, x.isClosed = false from H _ c (by omega)
+  intro fuel
+  induction fuel with
+  | zero => intro c h; omega
+  | succ fuel ih =>
+    intro c hlt
+    obtain ⟨r, c', hr⟩ := recvFrame_pair max c
+    cases r with
+    | error e =>
+      exact ⟨[], e, by rw [recvLoop_err cd max fuel c c' e hr]; rfl,
+        recvFrame_err max c e (by rw [hr]), by simp⟩
+    | ok b =>
+      have hp := recvFrame_progress max c c' b hr
+      obtain ⟨evs, e, h1, h2, h3⟩ := ih c' (by omega)
+      refine ⟨classify cd b :: evs, e, by rw [recvLoop_ok cd max fuel c c' b hr, h1]; rfl, h2, ?_⟩
+      intro x hx
+      rcases List.mem_cons.mp hx with rfl | hx
+      · exact classify_not_closed cd b
+      · exact h3 x hx
+
+/-- **a refused frame is isolated**: a frame the receiver cannot use (too short for a type id,
+unknown type, undecodable body) costs exactly that frame — everything before and after it is
+received intact, in order, under every segmentation. -/
+theorem c03_refused_frame_isolated {V : Type} (cd : Codec V) (max : Nat) (hmax : max < 2^32)
+    (pre post : List (List Nat)) (bad : List Nat) (e : RecvErr)
+    (hbad : unmarshal cd bad = .error e)
+    (hf : ∀ f ∈ pre ++ bad :: post, f.length ≤ max)
+    (c : Segs) (hc : c.flatten = wire (pre ++ bad :: post)) :
+    recvAll cd max c =
+      pre.map (classify cd) ++ .refused e :: post.map (classify cd) ++ [.closed .eof] := by
+  rw [recvAll_frames cd max hmax (pre ++ bad :: post) [] .eof hf (endsWith_nil max) rfl c
+    (by simpa using hc)]
+  have : classify cd bad = .refused e := by
+    rcases c03_garbage_unmarshal cd bad with ⟨v, hv⟩ | ⟨e', he', _, hnf⟩
+    · rw [hv] at hbad; cases hbad
+    · rw [he'] at hbad; cases hbad
+      simp [classify, he', react, hnf]
+  simp [this]
+
+/-- **an over-limit frame closes the connection** (the repaired behaviour): everything sent before
+it is delivered/classified intact, the connection is closed at the oversize header, and *nothing
+after the header is ever interpreted* — the events do not depend on the bytes that follow. -/
+theorem c03_oversize_closes {V : Type} (cd : Codec V) (max : Nat) (hmax : max < 2^32)
+    (frames : List (List Nat)) (n : Nat) (junk : List Nat)
+    (hf : ∀ f ∈ frames, f.length ≤ max) (hn : max < n) (h32 : n < 2^32)
+    (c : Segs) (hc : c.flatten = wire frames ++ (be32 n ++ junk)) :
+    recvAll cd max c = frames.map (classify cd) ++ [.closed .tooBig] :=
+  recvAll_frames cd max hmax frames (be32 n ++ junk) .tooBig hf
+    (endsWith_oversize max n junk hn h32) rfl c hc
+
+/-- a connection cut in the middle of a frame: the complete frames before the cut are received,
+the partial one is dropped, the connection ends with EOF -/
+theorem c03_truncated_stream {V : Type} (cd : Codec V) (max : Nat) (hmax : max < 2^32)
+    (frames : List (List Nat)) (b : List Nat) (k : Nat)
+    (hf : ∀ f ∈ frames, f.length ≤ max) (hb : b.length ≤ max) (hk : k < (encFrame b).length)
+    (c : Segs) (hc : c.flatten = wire frames ++ (encFrame b).take k) :
+    recvAll cd max c = frames.map (classify cd) ++ [.closed .eof] :=
+  recvAll_frames cd max hmax frames _ .eof hf
+    (endsWith_truncated max b k hb (by omega) hk) rfl c hc
+
+/-- the codec the driver runs is sound whenever no sendable buffer is in the refusal table -/
+theorem tableCodec_sound (reg bad : List (List Nat))
+    (h : ∀ v, (Drv.tableCodec reg bad).sendable v = true → bad.contains v = false) :
+    (Drv.tableCodec reg bad).Sound := by
+  constructor
+  · intro v hv
+    simp only [Drv.tableCodec, Bool.and_eq_true, decide_eq_true_eq] at hv
+    simp [Drv.tableCodec]; omega
+  · intro v hv
+    simp only [Drv.tableCodec, Bool.and_eq_true, decide_eq_true_eq] at hv
+    exact hv.2
+  · intro v hv
+    have := h v hv
+    simp only [Drv.tableCodec, List.take_append_drop, this]
+    simp
+
+/-! ### non-vacuity: concrete streams that meet the hypotheses -/
+
+private def tyA : List Nat := List.replicate 16 7
+private def tyB : List Nat := List.replicate 16 9
+private def cdx : Codec (List Nat) := Drv.tableCodec [tyA] [tyA ++ [0xff]]
+private def m1 : List Nat := tyA ++ [1, 2, 3]
+private def m2 : List Nat := tyA
+private def mU : List Nat := tyB ++ [5]
+private def mD : List Nat := tyA ++ [0xff]
+
+/-- two valid messages, one of unknown type, one undecodable, one too short, in 1-byte and odd
+segments: delivered / refused one by one, then EOF -/
+example : recvAll cdx 64 (Drv.cut (wire [m1, mU, m2, mD, [1, 2], m1]) [1, 1, 1, 1, 1, 3, 20, 2, 5]) =
+    [.deliver m1, .refused .unknownType, .deliver m2, .refused .decode, .refused .short, .deliver m1,
+     .closed .eof] := by rfl
+
+/-- an over-limit header followed by a body that itself looks like frames: closed, nothing of the
+body is parsed -/
+example : recvAll cdx 20 (Drv.cut (wire [m1] ++ (be32 21 ++ wire [m1, m1])) [3, 9]) =
+    [.deliver m1, .closed .tooBig] := by rfl
+
+private def cdg : Codec (List Nat) := Drv.tableCodec [tyA] []
+private theorem cdg_sound : cdg.Sound := tableCodec_sound _ _ (by intro v _; rfl)
+
+/-- the hypotheses of `c03_value_delivery` are satisfiable: a sound codec, two sendable values -/
+example (c : Segs) (hc : c.flatten = wire ([m1, m2].map (bufOf cdg))) :
+    recvAll cdg 64 c = [.deliver m1, .deliver m2, .closed .eof] :=
+  c03_value_delivery cdg cdg_sound 64 (by omega) [m1, m2] (by decide) c hc
+
+/-- … and of `c03_refused_frame_isolated` / `c03_oversize_closes` -/
+example (c : Segs) (hc : c.flatten = wire ([m1] ++ mU :: [m2])) :
+    recvAll cdx 64 c = [.deliver m1, .refused .unknownType, .deliver m2, .closed .eof] :=
+  c03_refused_frame_isolated cdx 64 (by omega) [m1] [m2] mU .unknownType (by rfl) (by decide) c hc
+
+example (junk : List Nat) (c : Segs) (hc : c.flatten = wire [m1] ++ (be32 65 ++ junk)) :
+    recvAll cdx 64 c = [.deliver m1, .closed .tooBig] :=
+  c03_oversize_closes cdx 64 (by omega) [m1] 65 junk (by decide) (by omega) (by omega) c hc
+
+/-- the in-memory queues with capacity 1: a blocked send is skipped, order is kept -/
+example : (lrun 1 {} [.send [1], .send [2], .move, .send [3], .recv, .move, .recv]).1.got = [[1], [3]] := by
+  decide
 
 end C03
